@@ -24,7 +24,8 @@ def balance_rule(F, rep, M):
     except L.Unsupported as e:
         rep.cannot("balance.Data", "frame::mutable::Data::push_null", e)
     lb = F.body("frame::mutable::Data::len")
-    rep.ob("balance.Data.len", lb is not None and tir.pretty(L.strip_try(lb["tir"]["value"])) == "self.pre.len()", "frame::mutable::Data::len", "len", "Data::len must be the pre column's length")
+    lv = L.strip_try(lb["tir"]["value"]) if lb is not None else {}
+    rep.ob("balance.Data.len", lv.get("k") == "MethodCall" and lv["method"] == "len" and not lv.get("args") and tir.place(lv["recv"]) == "self.pre", "frame::mutable::Data::len", "len", "Data::len must be the pre column's length")
 
 
 def arms_rule(F, rep):
@@ -41,8 +42,18 @@ def arms_rule(F, rep):
     if ok:
         # find the enclosing `X.validity.as_mut().map(|v| v.push(true))`
         for x in tir.walk(pre["body"]):
-            if x.get("k") == "MethodCall" and x["method"] == "map" and any(y is pushes[0] for y in tir.walk(x)):
+            if x.get("k") == "MethodCall" and x["method"] in ("map", "iter_mut", "for_each") and any(y is pushes[0] for y in tir.walk(x)):
                 target = tir.place(x["recv"])
+            # `if let Some(v) = X.validity.as_mut() { v.push(true) }` / `match X.validity.as_mut() { Some(v) => v.push(true), None => {} }`
+            if x.get("k") == "If" and strip(x["cond"]).get("k") == "LetCond" and (strip(x["cond"])["pat"].get("path") or "").endswith("Some") and any(y is pushes[0] for y in tir.walk(x["then"])):
+                pb = strip(x["cond"])["pat"]["pats"][0]
+                if strip(pushes[0]["recv"]).get("id") == pb.get("id") and not [y for y in tir.walk(x.get("else") or {}) if y.get("k") in ("MethodCall", "Call", "Assign")]:
+                    target = tir.place(strip(x["cond"])["init"])
+            if x.get("k") == "Match" and any(y is pushes[0] for y in tir.walk(x)) and target is None:
+                for a in x["arms"]:
+                    q = a["pat"]
+                    if q.get("k") == "TupleStruct" and (q.get("path") or "").endswith("Some") and q["pats"][0].get("k") == "Bind" and strip(pushes[0]["recv"]).get("id") == q["pats"][0].get("id"):
+                        target = tir.place(x["scrut"])
     readers = [x for x in tir.walk(pre["body"]) if x.get("k") == "MethodCall" and x["method"] == "read_push" and (declared(x) or "") == "frame::mutable::Pre::read_push"]
     rtargets = [tir.place(x["recv"]) for x in readers]
     same = ok and target is not None and len(rtargets) == 1 and target.rsplit(".", 1)[0] == rtargets[0].rsplit(".", 1)[0] and target.endswith(".validity") and rtargets[0].endswith(".pre")
@@ -60,6 +71,43 @@ def arms_rule(F, rep):
     return arms
 
 
+def occupancy_shape_ok(po):
+    """port_occupancy(start) == start.players.iter().map(|p| PortOccupancy { port: p.port, follower: p.character == ICE_CLIMBERS }).collect()"""
+    sname = po["tir"]["params"][0].get("name")
+    tail = L.strip_try(po["tir"]["value"])
+    while tail.get("k") == "Block":
+        if tail.get("stmts") or tail.get("tail") is None:
+            return False
+        tail = L.strip_try(tail["tail"])
+    if not (tail.get("k") == "MethodCall" and tail["method"] == "collect"):
+        return False
+    m = strip(tail["recv"])
+    if not (m.get("k") == "MethodCall" and m["method"] == "map" and len(m["args"]) == 1):
+        return False
+    it = strip(m["recv"])
+    if not (it.get("k") == "MethodCall" and it["method"] in ("iter", "into_iter") and tir.place(it["recv"]) == sname + ".players"):
+        return False
+    cl = strip(m["args"][0])
+    if cl.get("k") != "Closure" or len(cl["params"]) != 1 or cl["params"][0].get("k") != "Bind":
+        return False
+    pid = cl["params"][0]["id"]
+    st = L.strip_try(cl["body"])
+    while st.get("k") == "Block" and not st.get("stmts") and st.get("tail") is not None:
+        st = L.strip_try(st["tail"])
+    if st.get("k") != "Struct" or not (st.get("path") or "").endswith("PortOccupancy"):
+        return False
+    f = {x["name"]: strip(x["e"]) for x in st["fields"]}
+
+    def pfield(e, name):
+        e = strip(e)
+        return e.get("k") == "Field" and e["name"] == name and strip(e["base"]).get("id") == pid
+    fol = f.get("follower", {})
+    ok_f = fol.get("k") == "Binary" and fol.get("op") == "Eq" and (
+        (pfield(fol["l"], "character") and (strip(fol["r"]).get("path") or "").endswith("ICE_CLIMBERS")) or
+        (pfield(fol["r"], "character") and (strip(fol["l"]).get("path") or "").endswith("ICE_CLIMBERS")))
+    return set(f) == {"port", "follower"} and pfield(f["port"], "port") and ok_f
+
+
 def data_mut_rule(F, rep):
     fn = "io::slippi::de::ParseState::data_mut"
     b = F.body(fn)
@@ -70,14 +118,14 @@ def data_mut_rule(F, rep):
     ok = "self.port_indexes.get((port as usize))" in txt and "self.game.frames.ports.get_mut(*i)" in txt
     rep.ob("ports.lookup", ok, fn, "lookup", "the character lookup must go port -> port_indexes[port] -> frames.ports[index]")
     sel = None
+    flag = b["tir"]["params"][-1].get("name")
     for x in tir.walk(b["tir"]["value"]):
-        if x.get("k") == "Match" and L.local_name(x["scrut"]) == "is_follower":
-            res = {}
-            for a in x["arms"]:
-                key = a["pat"]["e"].get("v") if a["pat"].get("k") == "Lit" else "_"
-                t = tir.pretty(a["body"])
-                res[key] = "follower" if "port_data.follower" in t else ("leader" if "port_data.leader" in t else "?")
-            sel = res
+        bb = tir.bool_branch(x) if x.get("k") in ("Match", "If") else None
+        if bb is not None and bb[2] is not None and L.local_name(bb[0]) == flag:
+            def side(e):
+                fs = set(y["name"] for y in tir.walk(e) if y.get("k") == "Field" and y["name"] in ("leader", "follower"))
+                return "follower" if fs == {"follower"} else ("leader" if fs == {"leader"} else "?")
+            sel = {True: side(bb[1]), False: side(bb[2])}
     rep.ob("ports.follower-flag", sel is not None and sel.get(True) == "follower" and (sel.get(False) == "leader" or sel.get("_") == "leader"), fn, "follower",
            "follower flag set must select the follower's data, clear the leader's; got %s" % sel)
 
@@ -113,8 +161,7 @@ def port_table_rule(F, rep):
     rep.ob("ports.order", len(each) == 1 and each[0]["field"] == "ports" and each[0]["over"] == "ports" and each[0]["struct"] == "PortData", "frame::mutable::Frame::with_capacity", "ports",
            "frames.ports must map the occupancy slice element-wise in order")
     po = F.body("game::port_occupancy")
-    txt = tir.pretty(po["tir"]["value"])
-    ok = "start.players.iter().map(" in txt and "port: p.port" in txt and "follower: (p.character Eq game::ICE_CLIMBERS)" in txt and txt.rstrip(" }").endswith(".collect()")
+    ok = occupancy_shape_ok(po)
     rep.ob("ports.occupancy", ok, "game::port_occupancy", "shape", "port_occupancy must map start.players in order to (port, follower = character == ICE_CLIMBERS)")
     cb = F.const_body("game::ICE_CLIMBERS")
     rep.ob("ports.ics-const", cb is not None and tir.lit_int(cb["tir"]["value"]) == 14, "game::ICE_CLIMBERS", "value", "ICE_CLIMBERS must be external character id 14")
